@@ -331,7 +331,7 @@ Proof.
   intros Hb. destruct hk; try (exfalso; apply Hb; reflexivity); unfold run_hook.
   - unfold update_locked_state, lock_apply.
     apply (lock_update_inv (fun u => lstep (lcfg_of E) (ltriple u) (LOkBefore (o_now (e_O E))))
-             (fun u2 => if negb (is_locked E u2) then ret false else redirect E (ro_fail p_lock_notok) ;;; ret true)).
+             (fun u2 => if negb (is_locked E u2) then ret false else redirect E (ro_fail (p_lock_notok_of (e_cfg E))) ;;; ret true)).
     intros u. destruct (negb (is_locked E u)); [apply pres_ret|].
     apply pres_bind; [apply pres_redirect; exact _|intros; apply pres_ret].
   - unfold lock_apply.
@@ -339,7 +339,7 @@ Proof.
     intros u. apply pres_ret.
   - unfold update_locked_state, lock_apply.
     apply (lock_update_inv (fun u => lstep (lcfg_of E) (ltriple u) (LFail (o_now (e_O E))))
-             (fun u2 => if negb (is_locked E u2) then ret false else redirect E (ro_fail p_lock_notok) ;;; ret true)).
+             (fun u2 => if negb (is_locked E u2) then ret false else redirect E (ro_fail (p_lock_notok_of (e_cfg E))) ;;; ret true)).
     intros u. destruct (negb (is_locked E u)); [apply pres_ret|].
     apply pres_bind; [apply pres_redirect; exact _|intros; apply pres_ret].
   - apply keeps_of_pres. pres_go.
